@@ -1,4 +1,5 @@
 import IV.Model.Serde
+import IV.Model.SerdeDetect
 /-!
 Helper lemmas for C11 (IV.Serde): string primitives, the read/write round trip, path joins.
 -/
@@ -517,5 +518,69 @@ theorem basename_mem_splitPath (p : Str) : basename p ∈ splitPath p := by
       conv => lhs; rw [this]
       rw [splitPath_append_sep, hb]
     rw [h2]; simp
+
+/-! ### archive detection (round 10) -/
+
+/-- the "closest root" loop returns the unique shortest candidate wherever it stands in the iteration order -/
+theorem closest_unique_min (root : Str) : ∀ (l : List Str) (c : Str),
+    root ∈ c :: l → (∀ x ∈ c :: l, x = root ∨ root.length < x.length) → closest c l = root := by
+  intro l
+  induction l with
+  | nil =>
+    intro c hm _
+    simp only [List.mem_singleton] at hm
+    simp [closest, hm]
+  | cons x rest ih =>
+    intro c hm hall
+    simp only [closest]
+    have hx := hall x (by simp)
+    have hc := hall c (by simp)
+    by_cases hlt : x.length < c.length
+    · simp only [hlt, if_true]
+      apply ih
+      · rcases List.mem_cons.1 hm with h | h
+        · subst h
+          rcases hx with h' | h'
+          · simp [h']
+          · omega
+        · exact h
+      · intro y hy
+        rcases List.mem_cons.1 hy with h | h
+        · subst h; exact hx
+        · exact hall y (by simp [h])
+    · simp only [hlt, if_false]
+      apply ih
+      · rcases List.mem_cons.1 hm with h | h
+        · simp [h]
+        · rcases List.mem_cons.1 h with h2 | h2
+          · subst h2
+            rcases hc with h' | h'
+            · simp [h']
+            · omega
+          · simp [h2]
+      · intro y hy
+        rcases List.mem_cons.1 hy with h | h
+        · subst h; exact hc
+        · exact hall y (by simp [h])
+
+/-- `f.find(m)` finds nothing exactly when `m` is no substring of `f` (so the fuel-free search is complete) -/
+theorem findSub_none_iff (m : Str) : ∀ (f : Str) (k : Nat), findSub m f k = none ↔ ¬ m <:+: f := by
+  intro f
+  induction f with
+  | nil =>
+    intro k
+    by_cases h : m = []
+    · simp [findSub, h]
+    · simp [findSub, h, List.infix_nil]
+  | cons c cs ih =>
+    intro k
+    simp only [findSub]
+    by_cases hp : m.isPrefixOf (c :: cs) = true
+    · have : m <+: c :: cs := List.isPrefixOf_iff_prefix.1 hp
+      simp [hp, List.infix_cons_iff, this]
+    · have hn : ¬ m <+: c :: cs := fun h => hp (List.isPrefixOf_iff_prefix.2 h)
+      simp only [hp]
+      rw [List.infix_cons_iff]
+      simp [hn, ih (k + 1)]
 
 end IV.Serde
